@@ -17,7 +17,10 @@ E == T[l]
 Is(name) == l <= Len(T) /\ E.ev = name /\ l' = l + 1 /\ t' = t
 
 \* a probe lists the versions of the model history the opened storage is indistinguishable from
-Sees(e) == \E j \in 1..Len(e.n) : e.n[j] = Recover
+\* (when the image was also opened read-only before - field ro - that storage must show the same: a read-only open
+\* ignores an unfinished or torn tail instead of cutting it off)
+Sees(e) == /\ \E j \in 1..Len(e.n) : e.n[j] = Recover
+           /\ ("ro" \in DOMAIN e => \E j \in 1..Len(e.ro) : e.ro[j] = Recover)
 TInit == FInit /\ t \in 1..Len(Traces) /\ l = 1
 
 TVoteWrite == Is("VoteWrite") /\ VoteWrite(E.off, E.n, E.st)
